@@ -57,15 +57,19 @@ func registerTimeIntrinsics() {
 		if n.IsConst() && n.val == 0xffffffffffffffff {
 			return s // built by zzverif.TimeFromUnixNano
 		}
-		return fr.x.f.UF("time_unixnano", 64, s, n)
+		// exact (wrapping) arithmetic, as the real method: sec*1e9 + nsec
+		f := fr.x.f
+		return f.Bin(OpAdd, f.Bin(OpMul, s, f.Const(64, 1000000000)), n)
 	}
 	in["(time.Time).UnixMilli"] = func(fr *frame, a []Value) Value {
 		s, n := timeParts(a[0])
-		return fr.x.f.UF("time_unixmilli", 64, s, n)
+		f := fr.x.f
+		return f.Bin(OpAdd, f.Bin(OpMul, s, f.Const(64, 1000)), f.Bin(OpSDiv, n, f.Const(64, 1000000)))
 	}
 	in["(time.Time).UnixMicro"] = func(fr *frame, a []Value) Value {
 		s, n := timeParts(a[0])
-		return fr.x.f.UF("time_unixmicro", 64, s, n)
+		f := fr.x.f
+		return f.Bin(OpAdd, f.Bin(OpMul, s, f.Const(64, 1000000)), f.Bin(OpSDiv, n, f.Const(64, 1000)))
 	}
 	ident := func(fr *frame, a []Value) Value { return a[0] }
 	in["(time.Time).UTC"] = ident
